@@ -150,6 +150,18 @@ func methods() []method {
 		{"Dict/nested", func(e *zerolog.Event) *zerolog.Event {
 			return e.Dict("k", zerolog.Dict().Str("a", vEsc).Dict("in", zerolog.Dict().Int("c", 1)).Array("arr", zerolog.Arr().Str(vEsc).Dict(zerolog.Dict().Bool("b", true))))
 		}, nil},
+		// the empty / nil class of every container-ish method (early-return paths must still recycle)
+		{"Array/empty", func(e *zerolog.Event) *zerolog.Event { return e.Array("k", zerolog.Arr()) }, nil},
+		{"Dict/empty", func(e *zerolog.Event) *zerolog.Event { return e.Dict("k", zerolog.Dict()) }, func(a *zerolog.Array) *zerolog.Array { return a.Dict(zerolog.Dict()) }},
+		{"Dict/emptyarr", func(e *zerolog.Event) *zerolog.Event { return e.Dict("k", zerolog.Dict().Array("a", zerolog.Arr()).Dict("d", zerolog.Dict())) }, nil},
+		{"Str/empty", func(e *zerolog.Event) *zerolog.Event { return e.Str("", "") }, func(a *zerolog.Array) *zerolog.Array { return a.Str("") }},
+		{"Strs/empty", func(e *zerolog.Event) *zerolog.Event { return e.Strs("k", []string{}).Strs("n", nil) }, nil},
+		{"Bytes/empty", func(e *zerolog.Event) *zerolog.Event { return e.Bytes("k", []byte{}).Hex("n", nil) }, func(a *zerolog.Array) *zerolog.Array { return a.Bytes(nil).Hex([]byte{}) }},
+		{"Ints/empty", func(e *zerolog.Event) *zerolog.Event { return e.Ints("k", []int{}).Uints8("n", nil).Floats64("f", nil).Bools("b", []bool{}) }, nil},
+		{"Times/empty", func(e *zerolog.Event) *zerolog.Event { return e.Times("k", []time.Time{}).Durs("n", nil) }, nil},
+		{"Err/nil", func(e *zerolog.Event) *zerolog.Event { return e.Err(nil).AnErr("k", nil) }, nil}, // (Array.Err(nil) goes through AppendInterface: outside the statement's "plain error")
+		{"RawJSON/empty", func(e *zerolog.Event) *zerolog.Event { return e.RawJSON("k", []byte("{}")) }, nil},
+		{"Type/nil", func(e *zerolog.Event) *zerolog.Event { return e.Type("k", nil) }, nil},
 		{"Object/nested", func(e *zerolog.Event) *zerolog.Event { return e.Object("k", vObjNested) }, func(a *zerolog.Array) *zerolog.Array { return a.Object(vObjNested) }},
 	}
 }
@@ -168,6 +180,7 @@ func main() {
 		build = os.Getenv("C07_BUILD")
 	}
 	r := seq.New("C07", tier, "exploration")
+	defer r.CrashGuard()
 	child := seq.ShardMode()
 	if child {
 		r.SetShardMode()
